@@ -6,6 +6,7 @@ package main
 import (
 	"fmt"
 	"go/ast"
+	"go/constant"
 	"go/token"
 	"go/types"
 	"sort"
@@ -674,5 +675,363 @@ func init() {
 			r.Rule(rule, "Manager.RunTransaction returns nil whenever Badger's Update returned nil: a durable batch is never reported as failed")
 			c04BatchResultIsBadgersResult(p, r, rule)
 		})
+	}
+}
+
+// c11ConvertedOnce (seeded C11-J): adapter ClientError turns a gRPC status into the fs_db error it stands for; given
+// an error that is not a status (one it has produced itself) it answers ErrUnknown. In the external client no error
+// that already went through ClientError is given to it again: not the result of a client function that converts,
+// not the error of io.Copy into a writer whose Write converts.
+func c11ConvertedOnce(p *Prog, r *Report, rule string) {
+	pkg := p.Pkg(pkgExtDB)
+	if pkg == nil {
+		return
+	}
+	info := pkg.TypesInfo
+	// functions of the client whose error results have been converted
+	converts := map[string]bool{}
+	for _, k := range sortedFuncKeys(p) {
+		fi := p.Funcs[k]
+		if fi.Pkg != pkg || fi.Decl == nil || fi.Decl.Body == nil {
+			continue
+		}
+		ast.Inspect(fi.Decl.Body, func(x ast.Node) bool {
+			if c, ok := x.(*ast.CallExpr); ok && p.callIs(pkg, c, kAdClientErr) {
+				converts[k] = true
+			}
+			return true
+		})
+	}
+	// convertedSource: the error of this call has (possibly) been converted already
+	convertedSource := func(c *ast.CallExpr) string {
+		if callee := p.staticCallee(pkg, c); callee != nil && callee.Pkg == pkg && converts[callee.Key] {
+			return callee.Key
+		}
+		if fn, ok := typeutilCallee(info, c); ok && fn.Pkg() != nil && fn.Pkg().Path() == "io" && len(c.Args) >= 2 {
+			switch fn.Name() {
+			case "Copy", "CopyN", "CopyBuffer", "WriteString":
+				for _, a := range c.Args[:2] {
+					tv, ok := info.Types[a]
+					if !ok {
+						continue
+					}
+					for _, mname := range []string{"Write", "Read"} {
+						obj, _, _ := types.LookupFieldOrMethod(tv.Type, true, pkg.Types, mname)
+						if m, ok := obj.(*types.Func); ok {
+							if mfi := p.funcOfObj(m); mfi != nil && mfi.Pkg == pkg && converts[mfi.Key] {
+								return mfi.Key + " (through io." + fn.Name() + ")"
+							}
+						}
+					}
+				}
+			}
+		}
+		return ""
+	}
+	sites := 0
+	for _, k := range sortedFuncKeys(p) {
+		fi := p.Funcs[k]
+		if fi.Pkg != pkg || fi.Decl == nil || fi.Decl.Body == nil {
+			continue
+		}
+		f := p.FlatOf(fi)
+		for _, nd := range f.Nodes {
+			if nd.Ast == nil {
+				continue
+			}
+			for _, c := range callsIn(nd.Ast, false) {
+				if !p.callIs(pkg, c, kAdClientErr) || len(c.Args) != 1 {
+					continue
+				}
+				sites++
+				src := ""
+				switch a := ast.Unparen(c.Args[0]).(type) {
+				case *ast.CallExpr:
+					src = convertedSource(a)
+				case *ast.Ident:
+					if o := objOf(info, a); o != nil {
+						for _, d := range f.ReachingDefs(nd.ID, o) {
+							if dc, ok := d.Rhs.(*ast.CallExpr); ok && d.Rhs != nil {
+								if s := convertedSource(dc); s != "" {
+									src = s
+								}
+							}
+						}
+					}
+				}
+				cons := fmt.Sprintf("%s#converted-once/%s", k, p.pos(c))
+				if src != "" {
+					r.Viol(rule, fmt.Sprintf("%s#converted-once", k), p.pos(c), "ClientError is applied to an error that "+src+" has already converted: the second conversion finds no gRPC status in it and answers ErrUnknown, the sentinel the server sent is lost")
+				} else {
+					_ = cons
+				}
+			}
+		}
+	}
+	r.Hold(rule, "client-conversion-sites", "", fmt.Sprintf("%d ClientError call sites in %s examined, %d converting functions", sites, pkgExtDB, len(converts)))
+	r.Floor(rule, "client-conversion-sites", sites, 10)
+}
+
+func init() {
+	old := registry["C11"]
+	registry["C11"] = func(p *Prog, r *Report) {
+		old(p, r)
+		r.Rule("C11.m", "the external client converts every transport error exactly once: ClientError is never given an error that a converting function or writer of the client has produced")
+		c11ConvertedOnce(p, r, "C11.m")
+	}
+}
+
+// storageCall: c is x.<name>(..) on the registry's storage: an ordered map under whatever name (a type that has
+// both Load and Delete).
+func storageCall(info *types.Info, c *ast.CallExpr, name string) bool {
+	sel, ok := ast.Unparen(c.Fun).(*ast.SelectorExpr)
+	if !ok || sel.Sel.Name != name {
+		return false
+	}
+	tv, ok := info.Types[sel.X]
+	if !ok {
+		return false
+	}
+	t := tv.Type
+	if _, isPtr := t.(*types.Pointer); !isPtr {
+		t = types.NewPointer(t)
+	}
+	ms := types.NewMethodSet(t)
+	has := map[string]bool{}
+	for i := 0; i < ms.Len(); i++ {
+		has[ms.At(i).Obj().Name()] = true
+	}
+	return has["Load"] && has["Delete"]
+}
+
+// c13RegistryDeleteIsOneStep (seeded C13-I): the registry's Delete finds the transaction and removes it in one
+// exclusive region: both the lookup and the removal run with the registry's lock write-held, and the lock is not
+// released in between. Otherwise two finishers of one transaction both find it: two Commits succeed, or a Commit
+// succeeds for data a Rollback has thrown away.
+func c13RegistryDeleteIsOneStep(p *Prog, r *Report, rule string) {
+	fi := p.Func(kTxRepoDelete)
+	if fi == nil {
+		return
+	}
+	info := fi.Pkg.TypesInfo
+	recv := "r"
+	if fi.Decl.Recv != nil && len(fi.Decl.Recv.List[0].Names) == 1 {
+		recv = fi.Decl.Recv.List[0].Names[0].Name
+	}
+	var loads, dels, rels []*LockEvent
+	for _, ev := range p.DeepLockEvents(fi, nil, 1) {
+		switch {
+		case ev.Kind == "call" && ev.Call != nil && ev.Fn == fi && storageCall(info, ev.Call, "Load"):
+			loads = append(loads, ev)
+		case ev.Kind == "call" && ev.Call != nil && ev.Fn == fi && storageCall(info, ev.Call, "Delete"):
+			dels = append(dels, ev)
+		case ev.Kind == "release" && ev.Ctx == "" && ev.Fn == fi:
+			rels = append(rels, ev)
+		}
+	}
+	cons := kTxRepoDelete + "#find-and-remove-in-one-exclusive-region"
+	if len(loads) == 0 || len(dels) == 0 {
+		r.Undecided(rule, cons, p.pos(fi.Decl), "the lookup / the removal on the registry's storage was not found")
+		return
+	}
+	wHeld := func(hs []Held) bool {
+		for _, h := range hs {
+			if h.Mode == "W" && strings.HasPrefix(h.Path, recv+".") {
+				return true
+			}
+		}
+		return false
+	}
+	for _, ev := range append(append([]*LockEvent{}, loads...), dels...) {
+		if !wHeld(ev.Held) {
+			r.Viol(rule, cons, p.pos(ev.Call), fmt.Sprintf("%s runs holding %s, not the registry's lock in write mode: two finishers of one transaction can both find it registered (two successful Commits, or a successful Commit of data a Rollback has discarded)", types.ExprString(ev.Call.Fun), heldString(ev.Held)))
+			return
+		}
+	}
+	// no release between the lookup and the removal
+	f := p.FlatOf(fi)
+	for _, l := range loads {
+		ln := f.NodeContaining(l.Call)
+		for _, d := range dels {
+			dn := f.NodeContaining(d.Call)
+			for _, rel := range rels {
+				rn := -1
+				if rel.Call != nil {
+					rn = f.NodeContaining(rel.Call)
+				}
+				if ln < 0 || dn < 0 || rn < 0 {
+					continue
+				}
+				if f.ReachableAfter(ln, map[int]bool{rn: true}, nil) && f.ReachableAfter(rn, map[int]bool{dn: true}, nil) && !f.ReachableAfter(dn, map[int]bool{ln: true}, nil) {
+					r.Viol(rule, cons, p.pos(rel.Call), "the registry's lock is released between the lookup and the removal: two finishers of one transaction can both find it registered")
+					return
+				}
+			}
+		}
+	}
+	r.Hold(rule, cons, p.pos(fi.Decl), "lookup and removal under one write-held region of the registry's lock")
+}
+
+func init() {
+	old := registry["C13"]
+	registry["C13"] = func(p *Prog, r *Report) {
+		old(p, r)
+		r.Rule("C13.j", "exactly one finisher per transaction: the registry's Delete looks the transaction up and removes it under one write-held region of its lock")
+		c13RegistryDeleteIsOneStep(p, r, "C13.j")
+	}
+}
+
+// boolWorlds enumerates the values the free boolean locals of cond can have at node: for each such variable the
+// constants among its reaching definitions (a definition that is not a constant gives both values).
+func boolWorlds(f *Flat, node int, cond ast.Expr, known map[types.Object]bool) []map[types.Object]bool {
+	info := f.Pkg.TypesInfo
+	var vars []types.Object
+	seen := map[types.Object]bool{}
+	ast.Inspect(cond, func(x ast.Node) bool {
+		id, ok := x.(*ast.Ident)
+		if !ok {
+			return true
+		}
+		v, ok := info.Uses[id].(*types.Var)
+		if !ok || v.IsField() || known[v] || seen[v] {
+			return true
+		}
+		if b, ok := v.Type().Underlying().(*types.Basic); ok && b.Info()&types.IsBoolean != 0 {
+			seen[v] = true
+			vars = append(vars, v)
+		}
+		return true
+	})
+	worlds := []map[types.Object]bool{{}}
+	for _, v := range vars {
+		vals := map[bool]bool{}
+		defs := f.ReachingDefs(node, v)
+		if len(defs) == 0 {
+			vals[true], vals[false] = true, true
+		}
+		for _, d := range defs {
+			if d.Rhs == nil {
+				vals[false] = true // var b bool
+				continue
+			}
+			if tv, ok := info.Types[d.Rhs]; ok && tv.Value != nil && tv.Value.Kind() == constant.Bool {
+				vals[constant.BoolVal(tv.Value)] = true
+			} else {
+				vals[true], vals[false] = true, true
+			}
+		}
+		var next []map[types.Object]bool
+		for _, w := range worlds {
+			for _, b := range []bool{false, true} {
+				if !vals[b] {
+					continue
+				}
+				nw := map[types.Object]bool{v: b}
+				for k, x := range w {
+					nw[k] = x
+				}
+				next = append(next, nw)
+			}
+		}
+		worlds = next
+	}
+	return worlds
+}
+
+// c17NoRoomNeverTried (seeded C17-J): store.Set never writes into a directory that reports no free space. The
+// registry reports zero for a directory whose root is not among the configured ones (it is only measured for
+// configured roots), so this skip is what keeps content out of roots that are not configured any more.
+func c17NoRoomNeverTried(p *Prog, r *Report, rule string) {
+	fi := p.Func(kStoreSet)
+	if fi == nil {
+		return
+	}
+	info := fi.Pkg.TypesInfo
+	f := p.FlatInl(fi)
+	cons := kStoreSet + "#a-directory-without-free-space-is-never-tried"
+	var minObj types.Object
+	for _, n := range f.Nodes {
+		if as, ok := n.Ast.(*ast.AssignStmt); ok && len(as.Lhs) == len(as.Rhs) {
+			for i, rhs := range as.Rhs {
+				if sel, ok := ast.Unparen(rhs).(*ast.SelectorExpr); ok && sel.Sel.Name == "Free" {
+					if o := objOf(info, as.Lhs[i]); o != nil && as.Tok == token.ASSIGN {
+						minObj = o
+					}
+				}
+			}
+		}
+	}
+	if minObj == nil {
+		r.Undecided(rule, cons, p.pos(fi.Decl), "the variable remembering the free space of the failed attempt was not found")
+		return
+	}
+	stores := setOf(f.CallNodes(kContentStore))
+	found := false
+	for _, n := range f.Nodes {
+		if !n.IsCond || !usesObj(info, n.Ast, minObj) {
+			continue
+		}
+		mentionsFree := false
+		ast.Inspect(n.Ast, func(x ast.Node) bool {
+			if sel, ok := x.(*ast.SelectorExpr); ok && sel.Sel.Name == "Free" {
+				mentionsFree = true
+			}
+			return true
+		})
+		if !mentionsFree {
+			continue
+		}
+		found = true
+		for _, w := range boolWorlds(f, n.ID, n.Ast.(ast.Expr), map[types.Object]bool{minObj: true}) {
+			env := &Env{P: p, Pkg: fi.Pkg, Vars: map[types.Object]*Val{minObj: intVal(0)}}
+			desc := ""
+			for o, b := range w {
+				env.Vars[o] = boolVal(b)
+				desc += fmt.Sprintf(" with %s=%v", o.Name(), b)
+			}
+			env.Hook = func(env *Env, e ast.Expr) (*Val, bool) {
+				if sel, ok := e.(*ast.SelectorExpr); ok && sel.Sel.Name == "Free" {
+					return intVal(0), true
+				}
+				return nil, false
+			}
+			v, err := env.Eval(n.Ast.(ast.Expr))
+			if err != nil || v.C == nil {
+				r.Undecided(rule, cons, p.pos(n.Ast), fmt.Sprintf("guard not evaluable: %v", err))
+				return
+			}
+			taken := 2
+			if constant.BoolVal(v.C) {
+				taken = 1
+			}
+			tries := false
+			for _, e := range n.Succs {
+				if e.Label == taken {
+					reach := f.Reach([]int{e.To}, func(x *GNode) bool { return x.Block != nil && x.Block.Kind.String() == "RangeLoop" && x.Ast == nil }, nil)
+					for id := range reach {
+						if stores[id] {
+							tries = true
+						}
+					}
+				}
+			}
+			if tries {
+				r.Viol(rule, cons, p.pos(n.Ast), "on the first attempt (nothing has failed yet)"+desc+" a directory that reports Free = 0 is written to: the registry reports 0 for every directory whose root is not configured (re-activated by the collector after a reopen with fewer roots), so content is created outside the configured roots")
+				return
+			}
+		}
+		r.Hold(rule, cons, p.pos(n.Ast), "Free = 0 is skipped in every reachable state of the guard's flags")
+	}
+	if !found {
+		r.Undecided(rule, cons, p.pos(fi.Decl), "no guard comparing a directory's free space with the failed attempt's was found")
+	}
+}
+
+func init() {
+	old := registry["C17"]
+	registry["C17"] = func(p *Prog, r *Report) {
+		old(p, r)
+		r.Rule("C17.n", "store.Set skips a directory that reports no free space in every state of the loop (directories of roots that are not configured report 0)")
+		c17NoRoomNeverTried(p, r, "C17.n")
 	}
 }
